@@ -26,7 +26,10 @@ type xspec struct {
 	// XT selects the own writer: "block" (Spec.T is "headers" or "push"; Fields, Stream, EndStream, Prio/Dep/Weight/
 	// Excl, Promise as in hw.Spec), "unknown" (an extension frame of type UType with ULen payload bytes),
 	// "settings" (Settings as in hw.Spec, written by the own writer so that it can share a write with the preface),
-	// "tablesize" (no frame: the own encoder changes the size of its dynamic table to Settings[0][1]).
+	// "tablesize" (no frame: the own encoder changes the size of its dynamic table to Settings[0][1]),
+	// "hold" (no frame: of what this endpoint writes from now on only the next ULen bytes reach the transport at once,
+	// the rest stays in flight until "release": one write of the endpoint that the transport delivers in two pieces,
+	// with other events of the history in between), "release" (the bytes held back are delivered).
 	XT string `json:"xt,omitempty"`
 	// Cuts are the offsets at which the encoded header block is cut into HEADERS/PUSH_PROMISE + CONTINUATION
 	// fragments (clamped to the block length; equal offsets give empty fragments).
@@ -55,6 +58,10 @@ type ownWriter struct {
 	enc  *hpack.Encoder
 	buf  bytes.Buffer
 	sent []hw.Event
+	// holding: bytes written by the endpoint are in flight (round 8): pass more bytes go out now, held follows at "release"
+	holding bool
+	pass    int
+	held    []byte
 }
 
 func newOwnWriter() *ownWriter {
@@ -175,12 +182,37 @@ func (o *ownWriter) write(e *hw.Endpoint, x xspec, tick func() int) error {
 	if x.XT == "" {
 		return e.Write(x.Spec)
 	}
+	switch x.XT {
+	case "hold":
+		o.holding, o.pass = true, x.ULen
+		return nil
+	case "release":
+		b := o.held
+		o.holding, o.held = false, nil
+		if len(b) == 0 {
+			return nil
+		}
+		return e.Write(hw.Spec{T: "raw", Raw: b})
+	}
 	b, ev := o.frames(x, tick())
 	if b == nil {
 		return nil
 	}
-	if err := e.Write(hw.Spec{T: "raw", Raw: b}); err != nil {
-		return err
+	if o.holding {
+		// the endpoint has handed these bytes to its transport (the frame counts as sent, in this order); the transport
+		// delivers the first o.pass of them now and the rest later
+		now := b
+		if len(now) > o.pass {
+			now = b[:o.pass]
+		}
+		o.pass -= len(now)
+		o.held = append(o.held, b[len(now):]...)
+		b = now
+	}
+	if len(b) > 0 {
+		if err := e.Write(hw.Spec{T: "raw", Raw: b}); err != nil {
+			return err
+		}
 	}
 	if ev != nil {
 		o.sent = append(o.sent, *ev)
